@@ -415,4 +415,136 @@ struct Interp {
   }
 };
 
+// Oracle self-check: a second, structurally recursive (big-step) interpreter for programs without GOTO / IF-GOTO.
+// It shares only the AST and the value evaluator's arithmetic with the flat interpreter above: no flattening, no
+// labels, no program counter. For jump-free programs both must end in the same state; a disagreement is an error of
+// the harness (reported as CHECK-BROKEN), never a violation.
+struct BigStep {
+  const Program &p;
+  std::vector<Frame> stack;
+  long long steps = 0, max_steps = 200000;
+  bool gave_up = false;
+  explicit BigStep(const Program &p) : p(p) {}
+  struct Stop {};
+  struct GiveUp {};
+
+  long long get(const std::string &v) {
+    auto it = stack.back().vars.find(v);
+    return it == stack.back().vars.end() ? 0 : it->second;
+  }
+  void tick() {
+    if (++steps > max_steps) throw GiveUp();
+  }
+  long long eval(const Val &v) {
+    tick();
+    switch (v.k) {
+      case Val::CONST: return v.c;
+      case Val::VAR: return get(v.var);
+      case Val::INC: return get(v.var) + v.c;
+      case Val::DEC: return std::max<long long>(0, get(v.var) - v.c);
+      case Val::CALL:
+      case Val::CALLP: {
+        std::vector<long long> args;
+        for (auto &a : v.args) args.push_back(eval(a));
+        const Routine &r = p.defs[(size_t)v.callee];
+        Frame f;
+        f.routine = v.callee;
+        f.name = r.name;
+        for (size_t i = 0; i < r.params.size(); i++) f.vars[r.params[i]] = args[i];
+        stack.push_back(f);
+        exec(r.body);
+        long long ret = get(r.has_out ? r.out : std::string("x0"));
+        stack.pop_back();
+        return ret;
+      }
+      case Val::ADD: return eval(v.args[0]) + eval(v.args[1]);
+      case Val::MUL: return eval(v.args[0]) * eval(v.args[1]);
+    }
+    return 0;
+  }
+  void exec(const std::vector<Stmt> &b) {
+    for (auto &s : b) {
+      tick();
+      switch (s.k) {
+        case Stmt::ASSIGN: {
+          long long v = eval(s.v);
+          if (v >= WORD_MAX) throw GiveUp();
+          stack.back().vars[s.x] = v;
+          break;
+        }
+        case Stmt::LOOP: {
+          long long n = get(s.x);
+          for (long long i = 0; i < n; i++) exec(s.body);
+          break;
+        }
+        case Stmt::WHILE:
+          while (get(s.x) != 0) exec(s.body);
+          break;
+        case Stmt::STOP: throw Stop();
+        case Stmt::M_IFELSE:
+          if (eval(s.v) != 0)
+            exec(s.body);
+          else
+            exec(s.body2);
+          break;
+        case Stmt::M_SWAP: {
+          long long a = get(s.x), b2 = get(s.y);
+          stack.back().vars[s.x] = b2;
+          stack.back().vars[s.y] = a;
+          break;
+        }
+        case Stmt::M_REPEAT:
+          for (long long i = 0; i < s.c; i++) exec(s.body);
+          break;
+        default: throw GiveUp();  // GOTO / IFGOTO: not in this interpreter's domain
+      }
+    }
+  }
+  // returns false if it gave up (budget / big values / jumps)
+  bool run() {
+    Frame m;
+    m.routine = -1;
+    m.name = "#root";
+    stack.clear();
+    stack.push_back(m);
+    try {
+      exec(p.main);
+    } catch (Stop &) {
+      return true;
+    } catch (GiveUp &) {
+      gave_up = true;
+      return false;
+    }
+    return true;
+  }
+};
+
+// compares the user-visible part of two final states (hidden %-variables of the flat interpreter are ignored)
+inline bool same_state(const std::vector<Frame> &a, const std::vector<Frame> &b, std::string &why) {
+  if (a.size() != b.size()) {
+    why = "activation depth " + std::to_string(a.size()) + " vs " + std::to_string(b.size());
+    return false;
+  }
+  for (size_t i = 0; i < a.size(); i++) {
+    if (a[i].name != b[i].name) {
+      why = "activation " + std::to_string(i) + " name";
+      return false;
+    }
+    std::set<std::string> names;
+    for (auto &e : a[i].vars)
+      if (e.first[0] != '%') names.insert(e.first);
+    for (auto &e : b[i].vars)
+      if (e.first[0] != '%') names.insert(e.first);
+    for (auto &n : names) {
+      auto x = a[i].vars.find(n), y = b[i].vars.find(n);
+      long long vx = x == a[i].vars.end() ? 0 : x->second, vy = y == b[i].vars.end() ? 0 : y->second;
+      if (vx != vy) {
+        why = "activation " + std::to_string(i) + " variable " + n + ": " + std::to_string(vx) + " vs " + std::to_string(vy);
+        return false;
+      }
+    }
+  }
+  return true;
+}
+
 }  // namespace ri
